@@ -961,6 +961,93 @@ func c05Layout(c *core.Ctx) {
 	}
 }
 
+// c05PostfixOnBuiltin: a postfix operator registered on a token that has a built-in INFIX level (the role is
+// free, so the registration is accepted) binds like a call-level suffix all the same: every operator string in
+// which that token occurs in postfix position only parses exactly like the same string with a custom postfix
+// token Q in its place.
+func c05PostfixOnBuiltin(c *core.Ctx) {
+	binary := []string{"+", "-", "*", "/", "%", "==", "!=", "<", ">", "<=", ">=", "&&", "||"}
+	mk := func(t string) (*c05Env, string) {
+		e := newC05Env()
+		e.pb.RegisterPrefixOperator(e.regType("P"), mkPrefix)
+		var err error
+		if t == "Q" {
+			err = e.pb.RegisterPostfixOperator(e.regType("Q"), mkPostfix)
+		} else {
+			err = e.pb.RegisterPostfixOperator(punctType[t], mkPostfix)
+		}
+		if err != nil {
+			return nil, err.Error()
+		}
+		return e, ""
+	}
+	ref, _ := mk("Q")
+	for ti, t := range binary {
+		if !c.Mine(int64(ti)) || c.Tick() {
+			continue
+		}
+		env, refused := mk(t)
+		if env == nil {
+			if c.ShrinkOK("pfx-refused") {
+				pl, _ := json.Marshal(c05Payload{Clause: "postfix-on-builtin", Toks: []string{t}})
+				c.Violate(core.Violation{Kind: "postfix-on-builtin-registration-refused", Config: "postfix on " + t, Case: t, Detail: "RegisterPostfixOperator on a token without a postfix role was refused: " + refused, Payload: pl, Size: 1})
+			}
+			continue
+		}
+		var ops []string
+		for _, o := range binary {
+			if o != t {
+				ops = append(ops, o)
+			}
+		}
+		ops = append(ops, "=")
+		for nops := 0; nops <= 2; nops++ {
+			c05Strings(nops, ops, func(toks []string, decorated bool) {
+				if c.Tick() {
+					return
+				}
+				has := false
+				sub := make([]string, len(toks))
+				for i, x := range toks {
+					sub[i] = x
+					if x == "Q" {
+						sub[i] = t
+						has = true
+					}
+					if x == t {
+						return // the token in another role (prefix - etc.): not the subject
+					}
+				}
+				if !has {
+					return
+				}
+				c.Cur(strings.Join(sub, " "))
+				c.Inc("postfix_on_builtin_cases")
+				g1, e1, p1 := c05Parse(env, strings.Join(sub, " "))
+				g2, e2, p2 := c05Parse(ref, strings.Join(toks, " "))
+				if p1 != "" || p2 != "" {
+					if p1 != "" && p2 == "" && c.ShrinkOK("pfx-panic") {
+						pl, _ := json.Marshal(c05Payload{Clause: "postfix-on-builtin", Toks: append([]string{t}, toks...)})
+						c.Violate(core.Violation{Kind: "postfix-on-builtin-panic", Config: "postfix on " + t, Case: strings.Join(sub, " "), Detail: p1, Payload: pl, Size: len(toks)})
+					}
+					return
+				}
+				g2 = strings.ReplaceAll(g2, "(cpost Q ", "(cpost "+t+" ")
+				k, d := "", ""
+				if (e1 == "") != (e2 == "") {
+					k, d = "postfix-on-builtin-acceptance", fmt.Sprintf("%q with a postfix operator registered on %s: error %q; the same string with a custom postfix token: error %q", strings.Join(sub, " "), t, e1, e2)
+				} else if e1 == "" && g1 != g2 {
+					k, d = "postfix-on-builtin-grouping", fmt.Sprintf("%q with a postfix operator registered on %s groups %s; a call-level suffix groups %s", strings.Join(sub, " "), t, g1, g2)
+				}
+				if k != "" && c.ShrinkOK(k) {
+					pl, _ := json.Marshal(c05Payload{Clause: "postfix-on-builtin", Toks: append([]string{t}, toks...)})
+					c.Violate(core.Violation{Kind: k, Config: "postfix on " + t, Case: strings.Join(sub, " "), Detail: d, Payload: pl, Size: len(toks)})
+				}
+			})
+		}
+	}
+}
+
 func c05LayoutReport(c *core.Ctx, k, d, src string, lx, mi int) {
 	if !c.ShrinkOK("layout" + k + Modes[mi].String()) {
 		return
@@ -970,6 +1057,7 @@ func c05LayoutReport(c *core.Ctx, k, d, src string, lx, mi int) {
 }
 
 func c05Run(c *core.Ctx) {
+	c05PostfixOnBuiltin(c)
 	c05Layout(c)
 	c05Group(c)
 	c05Primary(c)
@@ -1019,6 +1107,17 @@ func c05Replay(pl json.RawMessage) (string, []core.Violation) {
 		}
 		return out, nil
 	}
+	if p.Clause == "postfix-on-builtin" {
+		cx := core.NewCtx("C05", "quick", 0, 0, 1, time.Now().Add(10*time.Minute))
+		c05PostfixOnBuiltin(cx)
+		var vs []core.Violation
+		for _, v := range cx.Violations() {
+			if v.Config == "postfix on "+p.Toks[0] {
+				vs = append(vs, v)
+			}
+		}
+		return "postfix-on-built-in family re-run (postfix operator registered on " + p.Toks[0] + ")", vs
+	}
 	if p.Clause == "layout" {
 		cx := core.NewCtx("C05", "quick", 0, 0, 1, time.Now().Add(10*time.Minute))
 		c05Layout(cx)
@@ -1047,8 +1146,8 @@ func c05Replay(pl json.RawMessage) (string, []core.Violation) {
 func init() {
 	core.Register(&core.PropSpec{
 		ID: "C05", Level: "model_checking",
-		Rule:     "(a) grouping: plugin tokens X,Y (infix), P (prefix), Q (postfix) registered through the public builders; for every level 1..13 of X (x level 7 of Y quick; x every level of Y thorough) every flat operator string x o y o z (and x o y o z o w thorough) over the 16 built-in binary/assignment operators + X + Y, undecorated and with every single decoration of every operand by a prefix {-,!,++,P} and/or suffix {++,Q,(),.p,[1],(d)}, is parsed by the real parser and compared with the precedence-climbing reference R-prec (infix level L = left-associative at L, prefix operand at unary level, postfix at call level, assignment right-associative, targets must be assignable); plus a substitution oracle: X at a level that has a built-in binary operator groups exactly like that operator. (b) registry: every history <= depth 4 (5 thorough) over 25 calls {RegisterTokenType x3, RegisterPrefix/Infix(2 levels)/Postfix on two custom tokens and on + ! ++ (} on one builder pair, calls on custom tokens enabled once their type is registered, replayed on fresh builders in lock-step with the registry model R-reg: ids stable per name, distinct across names, above every built-in id; occupied role => error, free role => no error; after every step a probe set of 38 inputs parses to what R-prec predicts for the MODEL's table (so a refused registration provably left the parser unchanged; from depth 4 on, the probes that mention the token of the last call). states = distinct registry model states, transitions = history steps executed on the real builders; non-trivial = operator string in which a plugin operator has a built-in operator within two tokens (every string is distinct) Added: a parser is built and a mini probe set parsed between any two registrations of every history; probes on tokens holding a prefix and a postfix/infix role; operators registered after k in {1,15..17,31..33,63..65,127..129,255..257,1000} other token types; long flat operator strings of 9..257 operators over 5 operator cycles; layout x mode family: X at every level, operator strings with <= 2 operators over {X,+,*,==,=,||} and every single decoration, a line break before and/or after every X, in each of the 4 parser modes: same acceptance and grouping as on one line, and as the built-in operator of the level in the same layout.",
-		Assume:   []string{"registering a postfix role on a token that has an infix role (or the reverse) is not constrained: probes with such tokens are skipped, postfix on ( is not in the alphabet", "plugin createExpr callbacks always request their operand"},
+		Rule:     "(a) grouping: plugin tokens X,Y (infix), P (prefix), Q (postfix) registered through the public builders; for every level 1..13 of X (x level 7 of Y quick; x every level of Y thorough) every flat operator string x o y o z (and x o y o z o w thorough) over the 16 built-in binary/assignment operators + X + Y, undecorated and with every single decoration of every operand by a prefix {-,!,++,P} and/or suffix {++,Q,(),.p,[1],(d)}, is parsed by the real parser and compared with the precedence-climbing reference R-prec (infix level L = left-associative at L, prefix operand at unary level, postfix at call level, assignment right-associative, targets must be assignable); plus a substitution oracle: X at a level that has a built-in binary operator groups exactly like that operator. (b) registry: every history <= depth 4 (5 thorough) over 25 calls {RegisterTokenType x3, RegisterPrefix/Infix(2 levels)/Postfix on two custom tokens and on + ! ++ (} on one builder pair, calls on custom tokens enabled once their type is registered, replayed on fresh builders in lock-step with the registry model R-reg: ids stable per name, distinct across names, above every built-in id; occupied role => error, free role => no error; after every step a probe set of 38 inputs parses to what R-prec predicts for the MODEL's table (so a refused registration provably left the parser unchanged; from depth 4 on, the probes that mention the token of the last call). states = distinct registry model states, transitions = history steps executed on the real builders; non-trivial = operator string in which a plugin operator has a built-in operator within two tokens (every string is distinct) Added: a parser is built and a mini probe set parsed between any two registrations of every history; probes on tokens holding a prefix and a postfix/infix role; operators registered after k in {1,15..17,31..33,63..65,127..129,255..257,1000} other token types; long flat operator strings of 9..257 operators over 5 operator cycles; layout x mode family: X at every level, operator strings with <= 2 operators over {X,+,*,==,=,||} and every single decoration, a line break before and/or after every X, in each of the 4 parser modes: same acceptance and grouping as on one line, and as the built-in operator of the level in the same layout; postfix operator registered on each of the 13 built-in binary operator tokens: every operator string (<= 2 operators, every decoration) that uses the token in postfix position only parses like the same string with a custom postfix token.",
+		Assume:   []string{"a token that holds a postfix and an infix role at once: only its postfix uses are constrained (call-level suffix); registry probes that would use such a token as infix are skipped, postfix on ( is not in the alphabet", "plugin createExpr callbacks always request their operand"},
 		QuickSec: 240, ThorSec: 1800, Run: c05Run, Replay: c05Replay,
 		Evals: "grouping_cases", Nontriv: "cases_mixing_plugin_and_builtin_operators", States: "registry_states", Trans: "registry_transitions",
 	})
